@@ -283,7 +283,7 @@ prop(
     min_evaluations={"quick": 150000, "thorough": 1000000},
     must_see=[("variants", 16), ("windows", 8), ("pending_returns", 20000), ("lower_bound_checks_need_ge2", 5000),
               ("repoll_checks", 5000), ("out_of_order_completions", 5000), ("dependency_distances", 8),
-              ("tasks_cancelled_by_early_exit", 1000), ("validated_batch_and_window", 7), ("error_positions", 20), ("mt_quiescence_checks", 100000, "thorough")],
+              ("tasks_cancelled_by_early_exit", 1000), ("validated_batch_and_window", 7), ("error_positions", 20), ("mt_quiescence_checks", 100000, "thorough"), ("mt_early_exits_at_scope_drop", 1000, "thorough")],
 )
 
 prop(
